@@ -255,7 +255,7 @@ def add_events(u):
                    ('connections[idx].handle_srtla_ack_specific(*srtla_ack as i32, classic, current_time_ms);',
                     'let ghost mid = connections@;\n        let ghost mut retired: Option<int> = None;', 'after'),
                    ('break;', 'proof { retired = Some(i as int); }', 'before', 'opt'),
-                   ('        }\n        let mut c_nx: usize = 0;', '''        }
+                   ('        }\n        let ghost c_entry = connections@;\n        let mut c_nx: usize = 0;', '''        }
         proof {
             let sa = *srtla_ack as i32;
             let ix = idx as int;
@@ -297,6 +297,7 @@ def add_events(u):
             assert(keys_subset(it0, connections@));
         }
         let ghost pre_global = connections@;
+        let ghost c_entry = connections@;
         let mut c_nx: usize = 0;''', 'replace'),
                    ('let nak_res = attribute_nak(connections, seq_tracker, *nak, current_time_ms);', 'let ghost n0 = connections@;', 'before'),
                    ('let nak_res = attribute_nak(connections, seq_tracker, *nak, current_time_ms);', '''proof {
